@@ -337,6 +337,10 @@ def run(chk):
                                               "x1": ("xor", ["a_b", "c"]), "x2": ("xor", ["a", "b_c"]), "n1": ("nor", ["a", "b_c"]), "n2": ("nor", ["a_b", "c"])},
         "structurally-identical-gates": {"a": ("input", []), "b": ("input", []), "g1": ("nand", ["a", "b"]), "g2": ("nand", ["b", "a"]), "x1": ("xnor", ["a", "b"]), "x2": ("xnor", ["a", "b"]),
                                          "o": ("or", ["g1", "g2", "x1", "x2"])},
+        # a gate that reads some nets together with a gate over exactly those nets (complement pairs, parity of its own operands)
+        "gate-over-nets-and-a-function-of-them": {"a": ("input", []), "b": ("input", []), "c": ("input", []), "xn": ("xnor", ["a", "b"]), "xo": ("xor", ["a", "b"]), "na": ("not", ["a"]), "nn": ("nand", ["a", "b"]),
+                                                   "g1": ("and", ["a", "b", "xn"]), "g2": ("nand", ["a", "b", "xn"]), "g3": ("or", ["a", "b", "xo"]), "g4": ("nor", ["a", "na", "c"]), "g5": ("and", ["a", "b", "nn"]),
+                                                   "g6": ("or", ["a", "b", "xn"]), "g7": ("and", ["a", "b", "c", "xo"])},
         "adversarial-names": {"a": ("input", []), "b_c": ("input", []), "a_b": ("input", []), "c": ("input", []), "xor_inv_g": ("input", []),
                               "g": ("xnor", ["a", "b_c", "xor_inv_g"]), "h": ("xor", ["a_b", "c", "a"])},
     }
